@@ -41,7 +41,7 @@ func runC09(c *ctxT) {
 		}
 		// keep the very large mbapp cases rare in the quick tier
 		// the very large cases (up to 65535 parts) are kept rare in the quick tier
-		if size > 20000 && !(c.thorough() || i%60 == 0) {
+		if size > 20000 && !((c.thorough() && i%8 == 0) || i%60 == 0) {
 			size = size % 5000
 		}
 		if size > 300000 {
